@@ -4,6 +4,7 @@ package conntrack
 //vf:assume C13-close: a tracked connection is closed k = 1..3 times in sequence (concurrent closes rest on sync.Once); 0..2 reads and writes of symbolic sizes 0..3 before closing; the inner connection transfers what it is asked to (possibly short reads)
 
 import (
+	"io"
 	"net"
 	"time"
 
@@ -70,5 +71,94 @@ func vfH_C13_close() {
 	vfrt.Assert(inner.closes >= 1, "close/inner-connection-closed")
 	if b.TrackTraffic {
 		vfrt.Assert(obs != nil && int(obs.Rx()) == wantRx && int(obs.Tx()) == wantTx, "close/byte-counters-equal-bytes-transferred")
+	}
+}
+
+
+//vf:assume C13-bytes: a tracked connection over an inner connection that, like *net.TCPConn, also implements io.ReaderFrom; each of 1..3 transfers is a Read, Write or ReadFrom that moves 0..3 bytes and then succeeds or fails (a failing transfer may have moved bytes first)
+
+type vfInnerRF struct {
+	vfInner
+	moves []int
+	fails []bool
+	i     int
+}
+
+func (c *vfInnerRF) next(max int) (int, error) {
+	n, fail := c.moves[c.i], c.fails[c.i]
+	c.i++
+	if max >= 0 && n > max {
+		n = max
+	}
+	if fail {
+		return n, io.ErrUnexpectedEOF
+	}
+	return n, nil
+}
+func (c *vfInnerRF) Read(p []byte) (int, error)  { return c.next(len(p)) }
+func (c *vfInnerRF) Write(p []byte) (int, error) { return c.next(len(p)) }
+func (c *vfInnerRF) ReadFrom(r io.Reader) (int64, error) {
+	n, err := c.next(-1)
+	return int64(n), err
+}
+
+//vf:harness property=C13 nopanic reach=bytes-readfrom-failed-after-moving-bytes,bytes-read-failed-after-moving-bytes,bytes-all-succeeded
+func vfH_C13_bytes() {
+	inner := &vfInnerRF{}
+	closed := 0
+	b := Builder{TrackTraffic: true}
+	if vfrt.Choice("with-on-close", 2) == 1 {
+		b.OnClose = func() { closed++ }
+	}
+	c, obs := b.BuildWithObserver(inner)
+	vfrt.Assert(obs != nil, "bytes/observer-present")
+	if obs == nil {
+		return
+	}
+	steps := 1 + vfrt.Choice("transfers", 3)
+	wantRx, wantTx := 0, 0
+	anyFail := false
+	for i := 0; i < steps; i++ {
+		moved := vfrt.Choice("bytes-moved", 4)
+		fail := vfrt.Choice("transfer-fails", 2) == 1
+		inner.moves = append(inner.moves, moved)
+		inner.fails = append(inner.fails, fail)
+		switch vfrt.Choice("transfer", 3) {
+		case 0:
+			n, _ := c.Read(make([]byte, 3))
+			wantRx += n
+			vfrt.Assert(n == moved, "bytes/read-count-passed-through")
+			if fail && n > 0 {
+				vfrt.Reach("bytes-read-failed-after-moving-bytes")
+			}
+		case 1:
+			n, _ := c.Write(make([]byte, 3))
+			wantTx += n
+			vfrt.Assert(n == moved, "bytes/write-count-passed-through")
+		case 2:
+			rf, ok := c.(io.ReaderFrom)
+			vfrt.Assert(ok, "bytes/readfrom-of-the-inner-connection-stays-available")
+			if !ok {
+				return
+			}
+			n, _ := rf.ReadFrom(nil)
+			wantTx += int(n)
+			vfrt.Assert(int(n) == moved, "bytes/readfrom-count-passed-through")
+			if fail && n > 0 {
+				vfrt.Reach("bytes-readfrom-failed-after-moving-bytes")
+			}
+		}
+		anyFail = anyFail || fail
+	}
+	if !anyFail {
+		vfrt.Reach("bytes-all-succeeded")
+	}
+	vfrt.Assert(int(obs.Rx()) == wantRx, "bytes/rx-counter-equals-bytes-read-whatever-the-outcome")
+	vfrt.Assert(int(obs.Tx()) == wantTx, "bytes/tx-counter-equals-bytes-written-whatever-the-outcome")
+	o2 := ObserverFromConn(c)
+	vfrt.Assert(o2 == obs, "bytes/observer-found-from-the-connection")
+	c.Close()
+	if b.OnClose != nil {
+		vfrt.Assert(closed == 1, "bytes/closed-reported-once")
 	}
 }
